@@ -11,6 +11,7 @@
 #include "verif.h"
 #include <string.h>
 #include <errno.h>
+#include <stdlib.h>
 #include "queue.h"
 
 #ifndef MAXQ
@@ -32,6 +33,7 @@
 #define OP_STRING 12
 #define OP_FIND 13
 #define OP_MEMREV 14
+#define OP_RESIZE 15
 
 #ifndef KF_C13_QPOP_SPLIT
 # define KF_C13_QPOP_SPLIT 0
@@ -302,6 +304,33 @@ void harness(void)
 			else V_ASSERT(store[i] == store0[i], "bytes beyond the block untouched");
 		}
 	}
+	}
+#elif OP == OP_RESIZE
+	{
+	/* heap-backed store: grow / shrink / release; on shrinking the oldest bytes are dropped */
+	uint8_t *heap = malloc(max);
+	size_t nsz = V_IN_RANGE("newsize", 0, MAXQ + 2), keep, drop;
+	void *r;
+	V_ASSUME(heap != 0);
+	for (i = 0; i < MAXQ; i++) if (i < max) heap[i] = store[i];
+	q.base = heap;
+	r = mpt_queue_resize(&q, nsz);
+	keep = (nsz && nsz < max && len > nsz) ? nsz : (nsz ? len : 0);
+	drop = len - keep;
+	V_ASSERT(q.len == keep, "resize keeps as much content as fits (dropping the oldest bytes)");
+	if (nsz) {
+		V_ASSERT(r != 0 && q.base == r && q.max == (nsz == max ? max : nsz), "storage has the requested size");
+		V_ASSERT(q.off <= q.max && q.len <= q.max, "offsets inside the new storage");
+		for (i = 0; i < MAXQ; i++) if (i < keep) {
+			size_t pp = q.off + i; if (pp >= q.max) pp -= q.max;
+			V_ASSERT(((uint8_t *) q.base)[pp] == model[drop + i], "remaining content is the newest bytes in order");
+		}
+		free(q.base);
+	} else {
+		V_ASSERT(q.base == 0 && q.max == 0, "size 0 releases the storage");
+	}
+	V_WITNESS_END();
+	return;
 	}
 #else
 # error "OP not set"
